@@ -20,7 +20,7 @@ META = {
                    "elements; same for boxes and for the safe fallback path. The model is tied to /repo on every run: the real "
                    "fallible_map_vec/box (cfg(chalk_verif) re-export) are run on drop-logging element types (two identical-layout "
                    "pairs, one element type folded to itself through the real TypeFoldable::try_fold_with impls of Vec<T>/Box<T> "
-                   "with a scripted failing folder, four non-identical pairs incl. same size with higher AND with lower alignment of U, a ZST pair) under a watching global "
+                   "with a scripted failing folder, four non-identical pairs incl. same size with higher AND with lower alignment of U, a ZST pair, and two identical-layout pairs where exactly one side has drop glue (plain Copy data <-> drop-logging)) under a watching global "
                    "allocator for ALL lengths 0..N, every failure position, both modes, and boxes; the observed log must equal "
                    "the machine's log evaluated inside Coq."),
     "level_note": ("Trusted: Coq kernel; the meaning given to ptr::read / ptr::write / drop_in_place / Vec::from_raw_parts / "
@@ -34,23 +34,29 @@ META = {
     "assumptions": [
         "ptr::read/ptr::write/drop_in_place/from_raw_parts behave as the abstract machine's primitives (ownership level)",
         "the mapper either returns Ok with a value, or fails having dropped the element it was given (what a TypeFolder does)",
-        "correspondence is exhaustive only up to the stated length bound and for the eight element-type pairs of the harness",
+        "correspondence is exhaustive only up to the stated length bound and for the ten element-type pairs of the harness",
     ],
     "quick_s": 30, "thorough_s": 600,
 }
 
-VEC_VARIANTS = ["Same", "Same4", "Fold", "DiffSmall", "DiffBig", "DiffAlign", "DiffAlignDown", "Zst"]
+VEC_VARIANTS = ["Same", "Same4", "Fold", "DiffSmall", "DiffBig", "DiffAlign", "DiffAlignDown", "Zst", "PlainT", "PlainU"]
 # element types (names as printed by `mem layouts`) of each pair; which path a pair must take is
 # NOT tabulated here: the Coq model decides it from the measured sizes/alignments with the
 # layout predicate of in_place.rs (Mem.InPlace.classify)
-PAIR = {"Same": ("T16", "U16"), "Same4": ("T8", "U8"), "Fold": ("T16", "T16"), "DiffSmall": ("T16", "U8"),
+PAIR = {"Same": ("T16", "U16"), "Same4": ("T8", "U8"), "Fold": ("TF", "TF"), "PlainT": ("PT16", "U16"), "PlainU": ("T16", "PU16"), "DiffSmall": ("T16", "U8"),
         "DiffBig": ("T16", "U32B"), "DiffAlign": ("T8", "U8A"), "DiffAlignDown": ("T16", "U16A4"), "Zst": ("TZ", "UZ")}
 LAYOUTS = {}   # filled by check_layouts(): type name -> (size, align)
+NEEDS_DROP = {}   # type name -> mem::needs_drop
 
 
 def pair_layout(variant):
     t, u = PAIR[variant]
     return LAYOUTS[t] + LAYOUTS[u]
+
+
+def pair_needs(variant):
+    t, u = PAIR[variant]
+    return NEEDS_DROP[t], NEEDS_DROP[u]
 
 
 def path_of(variant):
@@ -92,7 +98,8 @@ def coq_case(c):
     ids = case_ids(c)
     fail = "NoFail" if c["pos"] is None else ("FailAt", ids[c["pos"]], MODES[c["mode"]])
     st, al, su, au = pair_layout(c["variant"])
-    return ("TCase", "KVec" if c["kind"] == "Vec" else "KBox", st, al, su, au, ids, sx.Nat(c["extra"]), OFF, fail)
+    nt, nu = pair_needs(c["variant"])
+    return ("TCase", "KVec" if c["kind"] == "Vec" else "KBox", st, al, su, au, nt, nu, ids, sx.Nat(c["extra"]), OFF, fail)
 
 
 def case_key(c):
@@ -157,8 +164,14 @@ def py_property(c, events):
     if rets[0] != exp:
         undecided.append("outcome %s, expected %s" % (rets[0], exp))
 
+    nt, nu = pair_needs(c["variant"])
+
     def drops(evs):
         return [(e[1], 0 if zst else e[2]) for e in evs if sx.head(e) == "ODrop" and isinstance(e, tuple)]
+
+    def glue(expected):
+        """values without drop glue are dropped by doing nothing: only the others can (and must) be seen"""
+        return [x for x in expected if (nt if x[0] == "ST" else nu)]
 
     def expect_exactly(actual, expected, when):
         from collections import Counter
@@ -170,7 +183,7 @@ def py_property(c, events):
     if rets[0] == "ROk":
         if drops(window):
             problems.append("on success %d element(s) were dropped before returning: %r" % (len(drops(window)), drops(window)[:6]))
-        expect_exactly(drops(post), [("SU", 0 if zst else i + OFF) for i in ids], "disposing of the successful result")
+        expect_exactly(drops(post), glue([("SU", 0 if zst else i + OFF) for i in ids]), "disposing of the successful result")
         res = [e[1] for e in events if sx.head(e) == "OResult" and isinstance(e, tuple)]
         if res != [n if c["kind"] == "Vec" else 1]:
             undecided.append("result length %r, expected %d" % (res, n))
@@ -178,7 +191,7 @@ def py_property(c, events):
         # failure at the position where the mapper was told to fail (or wherever the run says it failed)
         p = c["pos"] if c["pos"] is not None else 0
         expected = [("SU", 0 if zst else ids[j] + OFF) for j in range(p)] + [("ST", 0 if zst else ids[j]) for j in range(p, n)]
-        expect_exactly(drops(window) + drops(post), expected, "failure at position %d" % p)
+        expect_exactly(drops(window) + drops(post), glue(expected), "failure at position %d" % p)
     nde = sum(1 for e in events if e == "ODealloc")
     if nde != (1 if heap else 0):
         problems.append("input buffer released %d time(s), expected %d (%s)" % (nde, 1 if heap else 0, "leak" if nde == 0 else "double free"))
@@ -203,15 +216,22 @@ def check_layouts():
     v = sx.parse_sexp(out.strip()) if rc == 0 and out.strip() else None
     if not v or sx.head(v) != "Layouts":
         raise core.CheckFailure("mem layouts failed: %s %s" % (out, err))
-    t16, u16, t8, u8, u8a, u32b, tz, uz, u16a4 = [tuple(x) for x in v[1:]]
-    ok = (t16 == u16 and t8 == u8 and t16 != u8 and t16 != u32b and t8[0] == u8a[0] and t8[1] < u8a[1]
-          and t16[0] == u16a4[0] and t16[1] > u16a4[1]
-          and tz[0] == 0 and uz[0] == 0 and t16[0] > 0 and t8[0] > 0)
-    if not ok:
-        raise core.CheckFailure("element types of the harness do not have the assumed layouts: %r" % (v,))
+    L = {str(e[1]): (e[2], e[3], bool(e[4])) for e in v[1]}
     LAYOUTS.clear()
-    LAYOUTS.update({"T16": t16, "U16": u16, "T8": t8, "U8": u8, "U8A": u8a, "U32B": u32b, "TZ": tz, "UZ": uz, "U16A4": u16a4})
-    return dict(LAYOUTS)
+    NEEDS_DROP.clear()
+    for k, (sz, al, nd) in L.items():
+        LAYOUTS[k] = (sz, al)
+        NEEDS_DROP[k] = nd
+    la = LAYOUTS
+    ok = (la["T16"] == la["U16"] == la["PT16"] == la["PU16"] == la["TF"] and la["T8"] == la["U8"] and la["T16"] != la["U8"]
+          and la["T16"] != la["U32B"] and la["T8"][0] == la["U8A"][0] and la["T8"][1] < la["U8A"][1]
+          and la["T16"][0] == la["U16A4"][0] and la["T16"][1] > la["U16A4"][1]
+          and la["TZ"][0] == 0 and la["UZ"][0] == 0 and la["T16"][0] > 0 and la["T8"][0] > 0
+          and not NEEDS_DROP["PT16"] and not NEEDS_DROP["PU16"]
+          and all(NEEDS_DROP[k] for k in L if k not in ("PT16", "PU16")))
+    if not ok:
+        raise core.CheckFailure("element types of the harness do not have the assumed layouts / drop glue: %r" % (v,))
+    return {k: list(L[k]) for k in sorted(L)}
 
 
 def run_cases(ctx, cases, tag):
@@ -243,7 +263,7 @@ def correspondence(ctx, results, tag):
 
 def model_log(ctx, c, tag="model"):
     try:
-        return core.coq_eval(ctx.work, tag, IMPORTS, ["run_case (case_of %s)" % sx.to_coq(coq_case(c))])[0]
+        return core.coq_eval(ctx.work, tag, IMPORTS, ["run_tcase %s" % sx.to_coq(coq_case(c))])[0]
     except core.CheckFailure as e:
         return "<coq evaluation failed: %s>" % str(e)[-300:]
 
@@ -312,7 +332,7 @@ def run(ctx):
     for c, o, ev, whyc in results:
         ctx.count("%s/%s" % (c["kind"], c["variant"]), case_key(c), nontrivial=c["n"] >= 1)
     wanted = [("Vec", "Same", 5, 0, 3, "Panic"), ("Vec", "Same4", 4, 3, 0, "Err"), ("Vec", "Same", 3, 0, None, None),
-              ("Vec", "DiffAlignDown", 4, 0, 2, "Err"), ("Vec", "Fold", 4, 0, 1, "Panic"), ("Vec", "Zst", 3, 0, 1, "Panic"), ("Box", "Same", 1, 0, 0, "Panic")]
+              ("Vec", "DiffAlignDown", 4, 0, 2, "Err"), ("Vec", "Fold", 4, 0, 1, "Panic"), ("Vec", "PlainT", 4, 0, 2, "Err"), ("Box", "Same", 1, 0, 0, "Panic")]
     for c, o, ev, _ in results:
         if (c["kind"], c["variant"], c["n"], c["extra"], c["pos"], c["mode"]) in wanted:
             ctx.sample({"case": harness_line(c), "coq_case": sx.to_coq(coq_case(c)), "real_log": o})
